@@ -1,15 +1,12 @@
-import AFDriver.C01
+import AFDriver.Registry
 
 open Lean (Json)
 
 namespace AF.Driver
 
 def dispatch (j : Json) : Except String Json := do
-  let p ← AF.Wire.getStr j "p"
-  match p with
-  | "C01" => handleC01 j
-  | "ping" => pure (Json.mkObj [("pong", true)])
-  | s => throw s!"unknown handler {s}"
+  let p ← (j.getObjVal? "p") >>= (·.getStr?)
+  registry p j
 
 def answer (line : String) : String :=
   match Json.parse line with
